@@ -23,6 +23,10 @@ pub enum POp {
     TransferLp { from: usize, to: usize, a: u128 },
     /// ExecuteMsg::WithdrawLiquidity {} with `a` of DENOMS[denom] attached (token-factory LP entry point)
     WithdrawDirect { who: usize, denom: usize, a: u128 },
+    BadFundsSwap { who: usize, dir: bool, declared: u128, sent: u128 },
+    BadFundsProvide { who: usize, d0: u128, d1: u128 },
+    ForeignHookSwap { who: usize, x: u128 },
+    TokenViaNativeSwap { who: usize, dir: bool, x: u128 },
 }
 
 fn optz(o: &Option<u128>) -> String { match o { Some(v) => format!("(Some {})", v), None => "None".into() } }
@@ -42,12 +46,18 @@ impl POp {
             POp::Donate { i, z } => format!("Donate {} {}", coqbool(*i), z),
             POp::TransferLp { from, to, a } => format!("TransferLP {}%nat {}%nat {}", from, to, a),
             POp::WithdrawDirect { who, denom, a } => format!("WithdrawDirect {}%nat {}%nat {}", who, denom, a),
+            POp::BadFundsSwap { who, dir, declared, sent } => format!("BadFundsSwap {}%nat {} {} {}", who, coqbool(*dir), declared, sent),
+            POp::BadFundsProvide { who, d0, d1 } => format!("BadFundsProvide {}%nat {} {}", who, d0, d1),
+            POp::ForeignHookSwap { who, x } => format!("ForeignHookSwap {}%nat {}", who, x),
+            POp::TokenViaNativeSwap { who, dir, x } => format!("TokenViaNativeSwap {}%nat {} {}", who, coqbool(*dir), x),
         }
     }
     pub fn json(&self) -> serde_json::Value { json!(format!("{:?}", self)) }
     pub fn kind(&self) -> &'static str {
         match self { POp::Provide { .. } => "provide", POp::Withdraw { .. } => "withdraw", POp::Swap { .. } => "swap", POp::Collect { .. } => "collect",
-                     POp::UpdateConfig { .. } => "update_config", POp::Donate { .. } => "donate", POp::TransferLp { .. } => "transfer_lp", POp::WithdrawDirect { .. } => "withdraw_direct" }
+                     POp::UpdateConfig { .. } => "update_config", POp::Donate { .. } => "donate", POp::TransferLp { .. } => "transfer_lp", POp::WithdrawDirect { .. } => "withdraw_direct",
+                     POp::BadFundsSwap { .. } => "bad_funds_swap", POp::BadFundsProvide { .. } => "bad_funds_provide", POp::ForeignHookSwap { .. } => "foreign_hook_swap",
+                     POp::TokenViaNativeSwap { .. } => "token_via_native_swap" }
     }
 }
 
@@ -115,7 +125,7 @@ pub fn exec(w: &mut PairWorld, op: &POp) -> Outcome<AppResponse> {
     let d = |o: &Option<u128>| o.map(dec);
     let name = |i: usize, w: &PairWorld| -> String { if i == 0 { w.pair.to_string() } else { ACCTS[i].to_string() } };
     let r = std::panic::catch_unwind(std::panic::AssertUnwindSafe(|| match op {
-        POp::Provide { who, d0, d1, tol, receiver } => { let rc = receiver.map(|r| name(r, w)); w.provide(ACCTS[*who], *d0, *d1, d(tol), rc) }
+        POp::Provide { who, d0, d1, tol, receiver } => { let rc = receiver.map(|r| name(r, w)); let rev = (*d0 ^ *d1) & 1 == 1; w.provide_ext(ACCTS[*who], *d0, *d1, d(tol), rc, rev, None) }
         POp::Withdraw { who, a } => w.withdraw(ACCTS[*who], *a),
         POp::Swap { who, dir, x, belief, max_spread, to } => { let t = to.map(|r| name(r, w)); w.swap(ACCTS[*who], *dir as usize, *x, d(belief), d(max_spread), t) }
         POp::Collect { who } => w.collect(ACCTS[*who]),
@@ -132,6 +142,28 @@ pub fn exec(w: &mut PairWorld, op: &POp) -> Outcome<AppResponse> {
             let lp = w.lp.clone(); let t = name(*to, w);
             cw_multi_test::Executor::execute_contract(&mut w.app, cosmwasm_std::Addr::unchecked(ACCTS[*from]), lp,
                 &cw20::Cw20ExecuteMsg::Transfer { recipient: t, amount: Uint128::new(*a) }, &[])
+        }
+        POp::BadFundsSwap { who, dir, declared, sent } => {
+            let i = *dir as usize; let pair = w.pair.clone();
+            let denom = match &w.assets[i] { white_whale_std::pool_network::asset::AssetInfo::NativeToken { denom } => denom.clone(), _ => DENOMS[3].to_string() };
+            let funds = if *sent > 0 { vec![cosmwasm_std::coin(*sent, denom)] } else { vec![] };
+            cw_multi_test::Executor::execute_contract(&mut w.app, cosmwasm_std::Addr::unchecked(ACCTS[*who]), pair,
+                &pair::ExecuteMsg::Swap { offer_asset: white_whale_std::pool_network::asset::Asset { info: w.assets[i].clone(), amount: Uint128::new(*declared) }, belief_price: None, max_spread: Some(dec(DEC / 2)), to: None }, &funds)
+        }
+        POp::BadFundsProvide { who, d0, d1 } => {
+            // attach one unit less than declared for every native asset
+            w.provide_ext(ACCTS[*who], *d0, *d1, None, None, false, Some((d0.saturating_sub(1), d1.saturating_sub(1))))
+        }
+        POp::ForeignHookSwap { who, x } => {
+            let f = w.foreign.clone(); let pair = w.pair.to_string();
+            cw_multi_test::Executor::execute_contract(&mut w.app, cosmwasm_std::Addr::unchecked(ACCTS[*who]), f,
+                &cw20::Cw20ExecuteMsg::Send { contract: pair, amount: Uint128::new(*x), msg: cosmwasm_std::to_json_binary(&pair::Cw20HookMsg::Swap { belief_price: None, max_spread: None, to: None }).unwrap() }, &[])
+        }
+        POp::TokenViaNativeSwap { who, dir, x } => {
+            let i = *dir as usize; let pair = w.pair.clone();
+            let info = match &w.assets[i] { white_whale_std::pool_network::asset::AssetInfo::Token { .. } => w.assets[i].clone(), _ => token(&w.foreign) };
+            cw_multi_test::Executor::execute_contract(&mut w.app, cosmwasm_std::Addr::unchecked(ACCTS[*who]), pair,
+                &pair::ExecuteMsg::Swap { offer_asset: white_whale_std::pool_network::asset::Asset { info, amount: Uint128::new(*x) }, belief_price: None, max_spread: None, to: None }, &[])
         }
         POp::WithdrawDirect { who, denom, a } => {
             let pair = w.pair.clone();
@@ -390,6 +422,15 @@ pub fn gen_case(rng: &mut Rng, len: usize, bias: &Bias) -> PairCase {
             let toggles = if bias.toggles || rng.chance(1, 4) { Some((rng.chance(3, 4), rng.chance(3, 4), rng.chance(3, 4))) } else { None };
             POp::UpdateConfig { who: sender, new_owner, new_fees, toggles }
         } else if choice < 97 { POp::Donate { i: rng.chance(1, 2), z: magnitude(rng, 90) }
+        } else if choice < 98 && rng.chance(1, 2) {
+            // malformed entries (must be rejected and change nothing)
+            let dirn = rng.chance(1, 2);
+            match rng.below(4) {
+                0 if !kinds[dirn as usize] => { let d = 1000 + rng.below128(1_000_000); POp::BadFundsSwap { who, dir: dirn, declared: d, sent: if rng.chance(1, 2) { d - 1 } else { d + 1 } } }
+                1 if !kinds[0] || !kinds[1] => POp::BadFundsProvide { who, d0: 1000 + rng.below128(100_000), d1: 1000 + rng.below128(100_000) },
+                2 => POp::ForeignHookSwap { who, x: rng.below128(1_000_000) },
+                _ => POp::TokenViaNativeSwap { who, dir: dirn, x: rng.below128(1_000_000) },
+            }
         } else if choice < 98 { POp::WithdrawDirect { who: 1 + rng.below(4) as usize, denom: rng.below(4) as usize, a: *rng.pick(&[0u128, 1, 500, 1000, 54772]) }
         } else { let from = 1 + rng.below(5) as usize; POp::TransferLp { from, to: rng.below(6) as usize, a: rng.below128(lp[from.min(5)].saturating_add(2)) } };
         // deposit immediately followed by withdrawing the minted amount is generated by the executor feedback below
@@ -496,6 +537,10 @@ impl PairCase {
             POp::Donate { i, z } => json!(["donate", i, z.to_string()]),
             POp::TransferLp { from, to, a } => json!(["transfer_lp", from, to, a.to_string()]),
             POp::WithdrawDirect { who, denom, a } => json!(["withdraw_direct", who, denom, a.to_string()]),
+            POp::BadFundsSwap { who, dir, declared, sent } => json!(["bad_funds_swap", who, dir, declared.to_string(), sent.to_string()]),
+            POp::BadFundsProvide { who, d0, d1 } => json!(["bad_funds_provide", who, d0.to_string(), d1.to_string()]),
+            POp::ForeignHookSwap { who, x } => json!(["foreign_hook_swap", who, x.to_string()]),
+            POp::TokenViaNativeSwap { who, dir, x } => json!(["token_via_native_swap", who, dir, x.to_string()]),
         }).collect();
         json!({"kinds": self.kinds, "fees": [self.fees.0.to_string(), self.fees.1.to_string(), self.fees.2.to_string()], "ops": ops})
     }
@@ -516,6 +561,10 @@ impl PairCase {
                 "donate" => POp::Donate { i: o[1].as_bool()?, z: ps(&o[2])? },
                 "transfer_lp" => POp::TransferLp { from: u(1)?, to: u(2)?, a: ps(&o[3])? },
                 "withdraw_direct" => POp::WithdrawDirect { who: u(1)?, denom: u(2)?, a: ps(&o[3])? },
+                "bad_funds_swap" => POp::BadFundsSwap { who: u(1)?, dir: o[2].as_bool()?, declared: ps(&o[3])?, sent: ps(&o[4])? },
+                "bad_funds_provide" => POp::BadFundsProvide { who: u(1)?, d0: ps(&o[2])?, d1: ps(&o[3])? },
+                "foreign_hook_swap" => POp::ForeignHookSwap { who: u(1)?, x: ps(&o[2])? },
+                "token_via_native_swap" => POp::TokenViaNativeSwap { who: u(1)?, dir: o[2].as_bool()?, x: ps(&o[3])? },
                 _ => return None,
             });
         }
